@@ -2,6 +2,8 @@ import JunoModel.C19.ProofsPad
 import JunoModel.C19.ProofsMerkle
 import JunoModel.C19.ProofsUnits
 import JunoModel.C19.ProofsValidator
+import JunoModel.C19.ProofsSched
+import JunoModel.C19.ProofsProc
 /-!
 C19 — property theorems (statements only; the proofs are one-line calls into `Proofs*.lean`).
 
@@ -11,17 +13,22 @@ Merkle proof verifies against the signed message root. A unit whose shard data, 
 signature, committee or sender does not match is rejected and cannot cause a different message to
 be delivered or the receiver to fail."
 
-Model: `Model.lean` (padding over `UInt64`, Merkle tree, protobuf leaf) and `ModelUnits.lean`
-(shards, units, scheduler origin check, validator, processor routing). Parameters with explicit
-laws: the hash (`Ideal`: injective tagged hashes with disjoint ranges), the Reed-Solomon codec
-(`RSLaws`: MDS + result shape + threshold, checked on the real library by the harness on every run),
-the signature scheme (only `verify` is used; unforgeability is what turns "the signature verifies"
-into "the publisher signed this payload").
+Model: `Model.lean` (padding over `UInt64`, Merkle tree, protobuf leaf), `ModelUnits.lean` (shards,
+units, scheduler, validator, routing of units to validators) and `ModelProc.lean` (wire form of a
+unit, subprocessor state machine, processor with its finalized cache). Parameters with explicit
+laws: the hash (`Ideal`), the Reed-Solomon codec (`RSLaws`, checked on the real library by the
+harness on every run), the signature scheme (only `verify` is used; unforgeability is what turns
+"the signature verifies" into "the publisher signed this payload").
 
-`cfg : Cfg` says which of the four repairs (proposed-fixes/C19-*.diff) the code carries. Theorems
-that hold for the code as pinned are stated for all `cfg`; where the pinned code falls short the
-full-strength statement carries the repair flag as hypothesis, the `_partial` theorem says what the
-pinned code satisfies, and the defect is a proved theorem next to it (`*_pinned`).
+Variants. `cfg : Cfg` = which of the four repairs of the padding/sharding layer the code has; all
+four are in /repo (a2bceaf, 32710c6, 8f80b72, d76716c), i.e. the tree is `Cfg.current`; section 0
+restates the headline theorems for `Cfg.current` without any flag hypothesis. The theorems named
+`*_before_fix_*` are regression statements: what the code did before the repair (true theorems
+about the flag value `false`; the harness would drive the model with that value again if a repair
+were lost). `pc : PCfg` = which of the three repairs of the wire/processor layer the code has; NONE
+of them is in /repo yet (`PCfg.current = PCfg.pinned`): there the full-strength statements carry
+the repair flag as hypothesis, the `_partial` theorems say what the current code satisfies, and
+each defect is a proved theorem next to it.
 -/
 namespace Juno.C19.Props
 open Juno.C19
@@ -59,8 +66,8 @@ theorem unpad_ignores_trailing_bytes (guard : Bool) (msg : Bytes) (k : Nat) (h :
     unpad guard (pad msg k ++ extra) = .ok msg :=
   unpad_pad_append guard msg k h extra hx
 
-/-- `unpad_total` (repaired UnpadMessage, `guard = true`): for EVERY byte string the result is a
-value or an error, never a panic, and a value is exactly the in-range slice
+/-- `unpad_total` (UnpadMessage since 32710c6, `guard = true`): for EVERY byte string the result
+is a value or an error, never a panic, and a value is exactly the in-range slice
 `padded[n : n+msgLen]` with `n + msgLen ≤ len(padded)` (decided over `UInt64`). -/
 theorem unpad_total (p : Bytes) :
     unpad true p ≠ .panic ∧
@@ -70,24 +77,19 @@ theorem unpad_total (p : Bytes) :
       m.length = (uvarint p).1.toNat :=
   unpad_guard_total p
 
-/- Full-strength statement for the pinned UnpadMessage — FALSE (lead L6c, known finding
-`unpad-panics-on-length-overflow`):
-     theorem unpad_total_pinned (p : Bytes) : unpad false p ≠ .panic
-   What holds instead: -/
-
-/-- `unpad_total_partial` (pinned UnpadMessage): it panics exactly when `varintLen + msgLen`
-wraps around `uint64` and the wrapped sum does not exceed the buffer length; on every other input
-it agrees with the repaired function. Missing for full strength: the overflow case. -/
-theorem unpad_total_partial (p : Bytes) (hlen : p.length < 2 ^ 64) :
+/-- Regression statement (UnpadMessage before 32710c6, `guard = false`): it panicked exactly when
+`varintLen + msgLen` wraps around `uint64` and the wrapped sum does not exceed the buffer length;
+on every other input it agreed with the repaired function. -/
+theorem unpad_before_fix_32710c6 (p : Bytes) (hlen : p.length < 2 ^ 64) :
     (unpad false p = .panic ↔
       (0 < (uvarint p).2 ∧ 2 ^ 64 ≤ ((uvarint p).2).toNat + (uvarint p).1.toNat ∧
        ((uvarint p).2).toNat + (uvarint p).1.toNat - 2 ^ 64 ≤ p.length)) ∧
     (unpad false p ≠ .panic → unpad false p = unpad true p) :=
   ⟨unpad_pinned_panic_iff p hlen, unpad_variants_agree p hlen⟩
 
-/-- Negation witness of `unpad_total_pinned`: the replayed input `ff×9 01 00 00`
-(Go: `slice bounds out of range [10:9]`). With the repair the same input is a length error. -/
-theorem unpad_panics_pinned :
+/-- The replayed input of the fixed finding `unpad-panics-on-length-overflow`, `ff×9 01 00 00`:
+a panic before the repair (Go: `slice bounds out of range [10:9]`), a length error since. -/
+theorem unpad_overflow_witness :
     unpad false [0xff, 0xff, 0xff, 0xff, 0xff, 0xff, 0xff, 0xff, 0xff, 0x01, 0, 0] = .panic ∧
     unpad true [0xff, 0xff, 0xff, 0xff, 0xff, 0xff, 0xff, 0xff, 0xff, 0x01, 0, 0] = .err .length := by
   decide
@@ -144,8 +146,8 @@ theorem created_unit_proof_verifies [DecidableEq H] (cfg : Cfg) (f : HashFns H) 
     (by simpa [hlen] using hi)
   simpa [honestUnit, treeOf, List.getD_eq_getElem?_getD, hlen, hi] using this
 
-/-- `reconstruct_any_subset` (ConstructMessageFromUnits taking the root from a present unit —
-proposed fix): for every message, every `(k, p)` the codec accepts, EVERY selection `S` of at least
+/-- `reconstruct_any_subset` (ConstructMessageFromUnits taking the root from a present unit, as it
+does since a2bceaf): for every message, every `(k, p)` the codec accepts, EVERY selection `S` of at least
 `k` of the `k+p` units made by CreatePropellerUnits — whichever are missing, shard 0 included — and
 every local shard index: ConstructMessageFromUnits returns exactly the message, the local shard
 and its proof. (Codec laws `RSLaws`; no assumption on the hash.) -/
@@ -162,12 +164,9 @@ theorem reconstruct_any_subset [DecidableEq H] (cfg : Cfg) (hfix : cfg.rootFromP
   subst hc
   exact construct_created cfg f rs C P _ _ msg k p hl hin hok hsz S hS hcount (Or.inl hfix) localIdx hloc
 
-/- Full-strength statement for the pinned ConstructMessageFromUnits (drop `hfix` above) — FALSE
-   (lead L6a, known finding `construct-panics-when-shard0-missing`). What holds instead: -/
-
-/-- `reconstruct_any_subset_partial` (any `cfg`, in particular the pinned code): the same, for the
-selections that contain unit 0. Missing for full strength: selections without shard 0. -/
-theorem reconstruct_any_subset_partial [DecidableEq H] (cfg : Cfg)
+/-- Regression statement (any `cfg`, in particular the code before a2bceaf): the same, for the
+selections that contain unit 0. -/
+theorem reconstruct_any_subset_before_fix_a2bceaf [DecidableEq H] (cfg : Cfg)
     (f : HashFns H) (rs : RS) (sg : SigScheme H) (C P : Bytes) (nonce : Nat) (msg : Bytes) (k p : Nat)
     (hl : RSLaws rs k p) (hin : PadInput msg k) (hok : rsNewOk k p = true) (hsz : GoSized rs msg k p)
     (units : List (PUnit H)) (hc : createUnits cfg f rs sg C P nonce msg k p = .ok units)
@@ -180,11 +179,10 @@ theorem reconstruct_any_subset_partial [DecidableEq H] (cfg : Cfg)
   subst hc
   exact construct_created cfg f rs C P _ _ msg k p hl hin hok hsz S hS hcount (Or.inr h0) localIdx hloc
 
-/-- Negation of the full-strength statement for the pinned code, for ALL messages and
-configurations: whenever shard 0 is missing, however many other shards are present,
-ConstructMessageFromUnits panics (nil dereference of `units[0]`). The concrete replay
-(k=1, p=1, only unit 1 present) is an instance. -/
-theorem reconstruct_panics_without_shard0_pinned [DecidableEq H] (cfg : Cfg)
+/-- Regression statement (code before a2bceaf), for ALL messages and configurations: whenever shard
+0 is missing, however many other shards are present, ConstructMessageFromUnits panicked (nil
+dereference of `units[0]`). -/
+theorem reconstruct_panicked_without_shard0_before_fix_a2bceaf [DecidableEq H] (cfg : Cfg)
     (hpinned : cfg.rootFromPresent = false)
     (f : HashFns H) (rs : RS) (sg : SigScheme H) (C P : Bytes) (nonce : Nat) (msg : Bytes) (k p : Nat)
     (hl : RSLaws rs k p) (hin : PadInput msg k) (hok : rsNewOk k p = true) (hsz : GoSized rs msg k p)
@@ -198,8 +196,9 @@ theorem reconstruct_panics_without_shard0_pinned [DecidableEq H] (cfg : Cfg)
   exact construct_created_panics_pinned cfg f rs C P _ _ msg k p hl hin hok hsz S hS hcount hpinned h0
     localIdx hloc
 
-/-- The concrete replay of the known finding, on the model: `(k, p) = (1, 1)` (three peers), message
-"hi", only unit 1 present. Pinned code: panic. Repaired code: the message. -/
+/-- The concrete replay of the fixed finding `construct-panics-when-shard0-missing`, on the model:
+`(k, p) = (1, 1)` (three peers), message "hi", only unit 1 present. Before a2bceaf: panic. Now:
+the message. -/
 theorem reconstruct_without_shard0_witness (sg : SigScheme HTerm) (C P : Bytes) (nonce : Nat) :
     (∃ units, createUnits Cfg.pinned termFns repCode11 sg C P nonce [104, 105] 1 1 = .ok units ∧
       construct Cfg.pinned termFns repCode11 (maskUnits [false, true] units) 1 1 1 = .panic) ∧
@@ -239,7 +238,7 @@ theorem construct_sound [DecidableEq H] (cfg : Cfg) (f : HashFns H) (hI : Ideal 
       pr = (treeOf cfg f rs msg k p).2.getD localIdx [] :=
   Juno.C19.construct_sound cfg f hI rs msg k p hl hin hsz U localIdx m sh pr hc hroot
 
-/-- `construct_total` — "… or the receiver to fail" (both repairs): on ANY units that carry at
+/-- `construct_total` — "… or the receiver to fail" (a2bceaf and 32710c6 in place): on ANY units that carry at
 least one shard each (the validator enforces exactly one) ConstructMessageFromUnits returns a
 value or an error, never panics. -/
 theorem construct_total [DecidableEq H] (cfg : Cfg) (f : HashFns H) (rs : RS)
@@ -250,10 +249,9 @@ theorem construct_total [DecidableEq H] (cfg : Cfg) (f : HashFns H) (rs : RS)
     construct cfg f rs U localIdx k p ≠ .panic :=
   Juno.C19.construct_total cfg f rs k p hl hk h1 h2 U hU localIdx hloc
 
-/-- `construct_total_partial` (any `cfg`, in particular the pinned code): a panic has one of the two
-known causes — `units[0]` missing, or the `uint64` overflow in UnpadMessage. Missing for full
-strength: those two cases (see `reconstruct_panics_without_shard0_pinned`, `unpad_panics_pinned`). -/
-theorem construct_total_partial [DecidableEq H] (cfg : Cfg) (f : HashFns H) (rs : RS)
+/-- Regression statement (any `cfg`): a panic of ConstructMessageFromUnits has one of the two causes
+repaired by a2bceaf and 32710c6 — `units[0]` missing, or the `uint64` overflow in UnpadMessage. -/
+theorem construct_panic_causes [DecidableEq H] (cfg : Cfg) (f : HashFns H) (rs : RS)
     (k p : Nat) (hl : RSLaws rs k p) (hk : 0 < k)
     (U : List (Option (PUnit H))) (hU : ∀ u, some u ∈ U → u.shards ≠ []) (localIdx : Nat)
     (hloc : localIdx < k + p)
@@ -401,14 +399,9 @@ theorem honest_unit_accepted [DecidableEq H] (cfg : Cfg) (f : HashFns H) (rs : R
             verifiedSig := some (sg.sign ⟨(treeOf cfg f rs msg k p).1, C, nonce⟩) } :=
   validate_accepts_honest cfg f rs sg s C P nonce msg k p i hcfg hl hin hi st hnew sender horig hsig
 
-/- Full-strength statement for the pinned code (drop `hcfg`, and `hsig` reduced to "sign/verify is
-   correct") — FALSE twice over (lead L6b, known findings
-   `validator-rejects-honest-created-unit-merkle`,
-   `created-unit-nonce-field-not-set-signature-unverifiable`): -/
-
-/-- Negation for the pinned leaf encodings, for ALL messages, configurations and indices: every
-unit of CreatePropellerUnits fails `verifyDataShards` ("data shards verification failed"). -/
-theorem honest_unit_rejected_pinned [DecidableEq H] (cfg : Cfg) (f : HashFns H)
+/-- Regression statement (leaf encodings before 8f80b72), for ALL messages, configurations and
+indices: every unit of CreatePropellerUnits failed `verifyDataShards`. -/
+theorem honest_unit_rejected_before_fix_8f80b72 [DecidableEq H] (cfg : Cfg) (f : HashFns H)
     (hI : Ideal f) (rs : RS) (sg : SigScheme H) (C P : Bytes) (nonce : Nat) (msg : Bytes) (k p i : Nat)
     (h1 : cfg.shardingLeafProto = false) (h2 : cfg.validatorLeafProto = true)
     (hl : RSLaws rs k p) (hin : PadInput msg k) (hi : i < k + p) :
@@ -416,14 +409,255 @@ theorem honest_unit_rejected_pinned [DecidableEq H] (cfg : Cfg) (f : HashFns H)
   created_unit_rejected_when_leaf_encodings_differ cfg f hI rs sg C P nonce msg k p i h1 h2 hl hin hi
 
 /-- The unit's own (root, committee, nonce) is the payload the publisher signed iff
-CreatePropellerUnits stores the nonce (proposed fix) or the nonce is 0: with the pinned code and
-any other nonce an unforgeable scheme rejects the signature of every honest unit. -/
+CreatePropellerUnits stores the nonce (since d76716c) or the nonce is 0: before, with any other
+nonce, an unforgeable scheme rejected the signature of every honest unit. -/
 theorem created_unit_signed_payload (cfg : Cfg) (f : HashFns H) (rs : RS) (sg : SigScheme H) (C P : Bytes)
     (nonce : Nat) (msg : Bytes) (k p i : Nat) :
     let u := honestUnit cfg f rs sg C P nonce msg k p i
     ((⟨u.root, u.committee, u.nonce⟩ : Payload H) = ⟨(treeOf cfg f rs msg k p).1, C, nonce⟩) ↔
       (cfg.nonceSet = true ∨ nonce = 0) :=
   created_unit_payload cfg f rs sg C P nonce msg k p i
+
+/-! ## 7. The scheduler `NewScheduler` builds -/
+
+/-- Reachability: every scheduler `NewScheduler` returns has a strictly sorted, duplicate-free peer
+list with exactly the given peers, `k = max(1, (N-1)/3)` data shards, `k + c = N - 1` shards in
+total, and the local peer at `localIdx` — everything the other theorems assume of a `Sched`. -/
+theorem scheduler_wellformed (id : Bytes) (nodes : List Bytes) (s : Sched)
+    (h : newScheduler id nodes = .ok s) :
+    s.peers = sortIds nodes ∧ SortedLt s.peers ∧ s.peers.Nodup ∧
+    s.peers.length = nodes.length ∧ 2 ≤ nodes.length ∧
+    s.peers.length = s.total + 1 ∧ 1 ≤ s.k ∧ s.k = max 1 ((nodes.length - 1) / 3) ∧
+    s.localId = id ∧ s.peers.idxOf? id = some s.localIdx ∧
+    (∀ q, q ∈ s.peers ↔ q ∈ nodes) :=
+  newScheduler_spec id nodes s h
+
+/-- For a scheduler made by `NewScheduler` and any publisher in the committee: every shard index
+has exactly one designated broadcaster, a member other than the publisher; no peer has two. -/
+theorem scheduler_assignment_bijective (id : Bytes) (nodes : List Bytes) (s : Sched)
+    (h : newScheduler id nodes = .ok s) (pub : Bytes) (hp : pub ∈ nodes) :
+    (∀ i, i < s.total → ∃ q, s.peerForShard pub i = .ok q ∧ q ∈ s.peers ∧ q ≠ pub) ∧
+    (∀ i j q, s.peerForShard pub i = .ok q → s.peerForShard pub j = .ok q → i = j) := by
+  obtain ⟨_, _, hnd, _, _, hlen, _, _, _, _, hmem⟩ := newScheduler_spec id nodes s h
+  exact peerForShard_spec s hnd hlen pub ((hmem pub).mpr hp)
+
+/-- `ShardIndexForPublisher` inverts `PeerForShardIndex`: the shard index the local peer computes
+for itself is in range and is the one whose designated broadcaster is the local peer. -/
+theorem scheduler_local_index_inverse (id : Bytes) (nodes : List Bytes) (s : Sched)
+    (h : newScheduler id nodes = .ok s) (pub : Bytes) (hp : pub ∈ nodes) (hne : pub ≠ id) :
+    ∃ i, s.shardIndexFor pub = .ok i ∧ i < s.total ∧ s.peerForShard pub i = .ok s.localId := by
+  obtain ⟨_, _, _, _, _, hlen, _, _, hid, hloc, hmem⟩ := newScheduler_spec id nodes s h
+  exact shardIndexFor_inverse s hlen (by rw [hid]; exact hloc) pub ((hmem pub).mpr hp) (by rw [hid]; exact hne)
+
+/-- Completeness of the origin check: the designated sender (the broadcaster of the index, or the
+publisher when that is the local peer) passes it. -/
+theorem origin_accepts_designated_sender (s : Sched) (pub : Bytes) (i : Nat) (sender : Bytes)
+    (hne : pub ≠ s.localId) (h : s.legitSender pub i = some sender) :
+    s.validateOrigin sender pub i = .ok () :=
+  origin_accepts_legit s pub i sender hne h
+
+/-! ## 8. The wire form of a unit (UnitFromProto / ToProto) -/
+
+/-- Round trip: `UnitFromProto(unit.ToProto()) = unit` for every well-formed unit (`WireOk`: at
+least one shard, equal shard lengths, 32-byte hashes and committee id, 32-bit index, 64-bit nonce),
+with or without the guard. -/
+theorem unit_proto_roundtrip (guard : Bool) (u : PUnit Bytes) (h : WireOk u) :
+    unitFromProto guard (unitToProto u) = .ok u :=
+  unitFromProto_toProto guard u h
+
+/-- Whatever UnitFromProto lets through has at least one shard, a 32-byte root, 32-byte siblings
+and committee id and a 32-bit index. -/
+theorem unit_from_proto_shape (guard : Bool) (pu : ProtoUnit) (u : PUnit Bytes)
+    (h : unitFromProto guard pu = .ok u) : u.shards ≠ [] ∧ u.root.length = 32 ∧
+      (∀ s ∈ u.proof, s.length = 32) ∧ u.committee.length = 32 ∧ u.index < 2 ^ 32 :=
+  unitFromProto_ok_shape guard pu u h
+
+/-- `unit_from_proto_total` (with proposed-fixes/C19-unit-from-proto-malformed-unit.diff,
+`wireGuard = true`): no protobuf unit whatsoever makes UnitFromProto panic. -/
+theorem unit_from_proto_total (pu : ProtoUnit) : unitFromProto true pu ≠ .panic :=
+  unitFromProto_total pu
+
+/- Full-strength statement for the code in /repo (`wireGuard = false`) — FALSE (known findings
+   `unit-from-proto-panics-on-unit-without-shards`, `unit-from-proto-panics-on-short-merkle-root`):
+     theorem unit_from_proto_total_current (pu) : unitFromProto false pu ≠ .panic
+   What holds instead: -/
+
+/-- `unit_from_proto_total_partial` (current code): it panics exactly on a unit without shards, or
+on one that passes the shard-length loop and has a Merkle root shorter than 32 bytes. Missing for
+full strength: those two inputs, both reachable from the network (`receiveUnits`). -/
+theorem unit_from_proto_total_partial (pu : ProtoUnit) :
+    unitFromProto false pu = .panic ↔
+      (pu.shards = [] ∨
+       ((pu.shards.take (pu.shards.length - 1)).any (fun s => s.length != (pu.shards.headD []).length) = false ∧
+        pu.merkleRoot.length < 32)) :=
+  unitFromProto_pinned_panic_iff pu
+
+/-- Negation witnesses: the empty unit, and a unit with one shard and no Merkle root. -/
+theorem unit_from_proto_panics_current :
+    unitFromProto false ⟨[], 0, [], [], [], [], [], 0⟩ = .panic ∧
+    unitFromProto false ⟨[[1, 2]], 0, [], [], [], [], [], 0⟩ = .panic ∧
+    unitFromProto true ⟨[], 0, [], [], [], [], [], 0⟩ = .err .noShards ∧
+    unitFromProto true ⟨[[1, 2]], 0, [], [], [], [], [], 0⟩ = .err .rootLen := by
+  decide
+
+/-! ## 9. The processor: units in any order, duplicates, forged units interleaved -/
+
+/-- Reachability: the invariant the processor theorems need (`ProcInv`: every stored subprocessor
+holds only units of its own message key, each with a shard, one slot per shard index, and has
+accepted at least one unit) holds initially and is kept by every step — hence in every state
+reachable by any sequence of units. -/
+theorem processor_invariant [DecidableEq H] (cfg : Cfg) (pc : PCfg) (f : HashFns H) (rs : RS)
+    (sg : SigScheme H) (s : Sched) :
+    ProcInv s (Proc.empty : Proc H) ∧
+    ∀ (p : Proc H) (u : PUnit H) (sender : Bytes), ProcInv s p →
+      ProcInv s (procStep cfg pc f rs sg s p u sender).1 :=
+  ⟨procInv_empty s, fun p u sender hp => procStep_inv cfg pc f rs sg s p u sender hp⟩
+
+/-- `processor_builds_exact_message` — over ANY sequence of `(unit, sender)` pairs handed to a
+fresh processor (any order, duplicates, forged units of this or other messages interleaved): if a
+step builds a message for a unit that carries the publisher's root of `msg`, the message built is
+`msg`. (Ideal hash; codec laws for the scheduler's `(k, c)`.) -/
+theorem processor_builds_exact_message [DecidableEq H] (cfg : Cfg) (pc : PCfg) (f : HashFns H)
+    (hI : Ideal f) (rs : RS) (sg : SigScheme H) (s : Sched) (msg : Bytes) (hl : RSLaws rs s.k s.c)
+    (hin : PadInput msg s.k) (hsz : GoSized rs msg s.k s.c)
+    (ops : List (PUnit H × Bytes)) (i : Nat) (u : PUnit H) (sender : Bytes) (bc : List (PUnit H))
+    (m : Bytes) (e : Option Bool) (hop : ops[i]? = some (u, sender))
+    (hroot : u.root = (treeOf cfg f rs msg s.k s.c).1)
+    (hb : (procRun cfg pc f rs sg s Proc.empty ops)[i]? = some (.handled bc (some m) e)) : m = msg :=
+  procRun_built_sound cfg pc f hI rs sg s msg hl hin hsz ops Proc.empty (procInv_empty s) i u sender bc m e
+    hop hroot hb
+
+/-- One step in any reachable state: besides the message, every unit handed to `broadcastUnit` is
+the accepted unit itself or the local unit carrying the publisher's shard and proof for the local
+shard index under the same message key. -/
+theorem processor_broadcasts_publishers_unit [DecidableEq H] (cfg : Cfg) (pc : PCfg) (f : HashFns H)
+    (hI : Ideal f) (rs : RS) (sg : SigScheme H) (s : Sched) (p : Proc H) (hp : ProcInv s p) (u : PUnit H)
+    (sender : Bytes) (msg : Bytes) (hl : RSLaws rs s.k s.c) (hin : PadInput msg s.k)
+    (hsz : GoSized rs msg s.k s.c) (hroot : u.root = (treeOf cfg f rs msg s.k s.c).1)
+    (bc : List (PUnit H)) (m : Bytes) (e : Option Bool)
+    (h : (procStep cfg pc f rs sg s p u sender).2 = .handled bc (some m) e) :
+    m = msg ∧ ∃ li, s.shardIndexFor u.publisher = .ok li ∧
+      ∀ lu ∈ bc, lu = u ∨ (lu.shards = [(encOf rs msg s.k s.c).getD li []] ∧
+        lu.proof = (treeOf cfg f rs msg s.k s.c).2.getD li [] ∧ lu.index = li ∧ keyOf lu = keyOf u) :=
+  procStep_built_sound cfg pc f hI rs sg s p hp u sender msg hl hin hsz hroot bc m e h
+
+/-- `processor_builds_once` — "threshold reached → reconstruct exactly once": over any sequence
+of units from any state, two different steps never both build the message of one key. -/
+theorem processor_builds_once [DecidableEq H] (cfg : Cfg) (pc : PCfg) (f : HashFns H) (rs : RS)
+    (sg : SigScheme H) (s : Sched) (ops : List (PUnit H × Bytes)) (p : Proc H) (i j : Nat) (hij : i < j)
+    (ui uj : PUnit H) (si sj : Bytes) (bi bj : List (PUnit H)) (mi mj : Bytes) (ei ej : Option Bool)
+    (hi : ops[i]? = some (ui, si)) (hj : ops[j]? = some (uj, sj)) (hk : keyOf ui = keyOf uj)
+    (hbi : (procRun cfg pc f rs sg s p ops)[i]? = some (.handled bi (some mi) ei)) :
+    (procRun cfg pc f rs sg s p ops)[j]? ≠ some (.handled bj (some mj) ej) :=
+  procRun_builds_at_most_once cfg pc f rs sg s ops p i j hij ui uj si sj bi bj mi mj ei ej hi hj hk hbi
+
+/-- `rejected_unit_is_noop` (with proposed-fixes/C19-processor-first-invalid-unit-no-poison.diff,
+`noPoison = true`) — "a unit … that does not match is rejected and cannot cause … the receiver to
+fail": in any reachable state a unit rejected by the validator of its message key triggers no
+broadcast and no build, does not panic, and leaves every later outcome of every later unit — of
+any message — exactly what it would have been without it. -/
+theorem rejected_unit_is_noop [DecidableEq H] (cfg : Cfg) (pc : PCfg) (hfix : pc.noPoison = true)
+    (f : HashFns H) (rs : RS) (sg : SigScheme H) (s : Sched) (p : Proc H) (hp : ProcInv s p)
+    (u : PUnit H) (sender : Bytes) (e : VErr)
+    (hrej : validate cfg f sg s (keyOf u).publisher
+      ((p.findSub (keyOf u)).getD (SubState.fresh s.total)).v u sender = .error e) :
+    (∀ bc b en, (procStep cfg pc f rs sg s p u sender).2 = .handled bc b en → bc = [] ∧ b = none) ∧
+    (procStep cfg pc f rs sg s p u sender).2 ≠ .panic ∧
+    ∀ ops, procRun cfg pc f rs sg s (procStep cfg pc f rs sg s p u sender).1 ops =
+      procRun cfg pc f rs sg s p ops :=
+  Juno.C19.rejected_unit_is_noop cfg pc hfix f rs sg s p hp u sender e hrej
+
+/- Full-strength statement for the code in /repo (drop `hfix`) — FALSE (known finding
+   `processor-drops-message-after-invalid-first-unit`). What the current code does instead: -/
+
+/-- `rejected_unit_is_noop_partial` (current code, `noPoison = false`) — the negation, for ALL
+messages: when the FIRST unit of a message key is rejected the key enters the finalized cache, and
+from then on every unit of that message, the honest ones included, is ignored. (A rejected unit that
+is not the first of its key is harmless in the current code too: `rejected_unit_is_noop` needs the
+flag only for that case.) -/
+theorem rejected_first_unit_suppresses_message_current [DecidableEq H] (cfg : Cfg) (pc : PCfg)
+    (hpin : pc.noPoison = false) (f : HashFns H) (rs : RS) (sg : SigScheme H) (s : Sched) (p : Proc H)
+    (u : PUnit H) (sender : Bytes) (e : VErr) (li : Nat) (hnew : p.findSub (keyOf u) = none)
+    (hnf : p.finalized.contains (keyOf u) = false)
+    (hsi : s.shardIndexFor (keyOf u).publisher = .ok li)
+    (hrej : validate cfg f sg s (keyOf u).publisher VState.fresh u sender = .error e)
+    (ops : List (PUnit H × Bytes)) (i : Nat) (u' : PUnit H) (sender' : Bytes)
+    (hop : ops[i]? = some (u', sender')) (hk : keyOf u' = keyOf u) :
+    (procRun cfg pc f rs sg s (procStep cfg pc f rs sg s p u sender).1 ops)[i]? = some .ignored :=
+  finalized_key_ignores_units cfg pc f rs sg s (keyOf u) ops _
+    (first_invalid_unit_poisons_key cfg pc hpin f rs sg s p u sender e li hnew hnf hsi hrej) i u' sender' hop hk
+
+/-- `subprocessor_total` (a2bceaf, 32710c6 and
+proposed-fixes/C19-processor-local-unit-from-present.diff in place): no unit, honest or forged, makes
+a subprocessor panic. -/
+theorem subprocessor_total [DecidableEq H] (cfg : Cfg) (pc : PCfg) (f : HashFns H) (rs : RS)
+    (sg : SigScheme H) (s : Sched) (key : MsgKey H) (li : Nat) (st : SubState H) (u : PUnit H)
+    (sender : Bytes) (h1 : cfg.rootFromPresent = true) (h2 : cfg.unpadGuard = true)
+    (h3 : pc.localFromPresent = true) (hl : RSLaws rs s.k s.c) (hk : 0 < s.k) (hli : li < s.total)
+    (hU : UnitsInv s key st) (hu : keyOf u = key) :
+    subStep cfg pc f rs sg s key.publisher li st u sender ≠ .panic :=
+  subStep_total cfg pc f rs sg s key li st u sender h1 h2 h3 hl hk hli hU hu
+
+/- Full-strength statement for the code in /repo (drop `h3`) — FALSE (known finding
+   `processor-panics-filling-local-unit-when-shard0-not-received`): -/
+
+/-- `subprocessor_total_partial` (current code, `localFromPresent = false`) — the negation, for ALL
+messages: when the unit that completes the build threshold is accepted, the build succeeds, the
+local shard has not been forwarded and slot 0 is empty, the subprocessor panics (nil dereference of
+`unitsReceived[0]`) — in a goroutine of its own, which takes the node down. -/
+theorem subprocessor_panics_without_shard0_current [DecidableEq H] (cfg : Cfg) (pc : PCfg)
+    (hpin : pc.localFromPresent = false) (f : HashFns H) (rs : RS) (sg : SigScheme H) (s : Sched)
+    (publisher : Bytes) (li : Nat) (st : SubState H) (u : PUnit H) (sender : Bytes) (v' : VState)
+    (r : Bytes × Bytes × List H)
+    (hstage : st.built = none) (hv : validate cfg f sg s publisher st.v u sender = .ok v')
+    (hk : st.count + 1 = s.k)
+    (hc : construct cfg f rs (st.units.set u.index (some u)) li s.k s.c = .ok r)
+    (hnot : st.localSent = false) (hli : li ≠ u.index)
+    (h0 : (st.units.set u.index (some u)).headD none = none) :
+    subStep cfg pc f rs sg s publisher li st u sender = .panic :=
+  subStep_panics_filling_local_unit_pinned cfg pc hpin f rs sg s publisher li st u sender v' r hstage hv hk hc
+    hnot hli h0
+
+/-! ## 0. The code as it is now (`Cfg.current`): the headline theorems without flag hypotheses -/
+
+theorem current_unpad_total (p : Bytes) : unpad Cfg.current.unpadGuard p ≠ .panic :=
+  (unpad_guard_total p).1
+
+theorem current_reconstruct_any_subset [DecidableEq H]
+    (f : HashFns H) (rs : RS) (sg : SigScheme H) (C P : Bytes) (nonce : Nat) (msg : Bytes) (k p : Nat)
+    (hl : RSLaws rs k p) (hin : PadInput msg k) (hok : rsNewOk k p = true) (hsmall : msg.length < 2 ^ 50)
+    (units : List (PUnit H)) (hc : createUnits Cfg.current f rs sg C P nonce msg k p = .ok units)
+    (S : List Bool) (hS : S.length = k + p) (hcount : k ≤ S.count true)
+    (localIdx : Nat) (hloc : localIdx < k + p) :
+    construct Cfg.current f rs (maskUnits S units) localIdx k p =
+      .ok (msg, (encOf rs msg k p).getD localIdx [], (treeOf Cfg.current f rs msg k p).2.getD localIdx []) :=
+  reconstruct_any_subset Cfg.current rfl f rs sg C P nonce msg k p hl hin hok
+    (goSized_of_small rs msg k p hl hin hok hsmall) units hc S hS hcount localIdx hloc
+
+theorem current_construct_total [DecidableEq H] (f : HashFns H) (rs : RS)
+    (k p : Nat) (hl : RSLaws rs k p) (hk : 0 < k)
+    (U : List (Option (PUnit H))) (hU : ∀ u, some u ∈ U → u.shards ≠ []) (localIdx : Nat)
+    (hloc : localIdx < k + p) :
+    construct Cfg.current f rs U localIdx k p ≠ .panic :=
+  Juno.C19.construct_total Cfg.current f rs k p hl hk rfl rfl U hU localIdx hloc
+
+/-- End to end on the current code: unit `i` of CreatePropellerUnits, sent by its designated sender,
+is accepted by a fresh validator of a receiver whose scheduler was made by `NewScheduler` — given
+only that signing then verifying succeeds and signatures are not empty. -/
+theorem current_honest_unit_accepted [DecidableEq H] (f : HashFns H) (rs : RS) (sg : SigScheme H)
+    (id : Bytes) (nodes : List Bytes) (s : Sched) (hs : newScheduler id nodes = .ok s)
+    (C P : Bytes) (hP : P ≠ id) (nonce : Nat) (msg : Bytes) (i : Nat) (sender : Bytes)
+    (hl : RSLaws rs s.k s.c) (hin : PadInput msg s.k) (hi : i < s.k + s.c)
+    (hsender : s.legitSender P i = some sender)
+    (hne : sg.sign ⟨(treeOf Cfg.current f rs msg s.k s.c).1, C, nonce⟩ ≠ [])
+    (hsv : sg.verify P ⟨(treeOf Cfg.current f rs msg s.k s.c).1, C, nonce⟩
+      (sg.sign ⟨(treeOf Cfg.current f rs msg s.k s.c).1, C, nonce⟩) = true) :
+    validate Cfg.current f sg s P VState.fresh (honestUnit Cfg.current f rs sg C P nonce msg s.k s.c i) sender =
+      .ok { received := [i], verifiedSig := some (sg.sign ⟨(treeOf Cfg.current f rs msg s.k s.c).1, C, nonce⟩) } := by
+  obtain ⟨_, _, _, _, _, _, _, _, hid, _, _⟩ := newScheduler_spec id nodes s hs
+  exact validate_accepts_honest Cfg.current f rs sg s C P nonce msg s.k s.c i rfl hl hin hi VState.fresh
+    (by simp [VState.fresh]) sender (origin_accepts_legit s P i sender (by rw [hid]; exact hP) hsender)
+    (Or.inr ⟨rfl, hne, hsv⟩)
 
 /-! ## Non-vacuity: the hypotheses are satisfiable -/
 
@@ -433,6 +667,10 @@ example : RSLaws repCode11 1 1 := repCode11_laws
 example : PadInput [1, 2, 3] 3 := by unfold PadInput; decide
 example : rsNewOk 3 6 = true := by decide
 example : RoutesOk (⟨fun _ => [1], fun _ _ _ => true⟩ : SigScheme HTerm) [] := routesOk_nil _
+example : Cfg.current = Cfg.repaired ∧ PCfg.current = PCfg.pinned := ⟨rfl, rfl⟩
+example : ProcInv (⟨[], 0, [], 1, 0⟩ : Sched) (Proc.empty : Proc HTerm) := procInv_empty _
+example : WireOk (⟨List.replicate 32 0, [1], List.replicate 32 7, [List.replicate 32 9], [5], 3, [[1, 2]], 8⟩ : PUnit Bytes) :=
+  ⟨by simp, by simp, by simp, by simp, by simp, by decide, by decide⟩
 example : Cfg.repaired.rootFromPresent = true ∧ Cfg.repaired.unpadGuard = true ∧
     Cfg.repaired.shardingLeafProto = Cfg.repaired.validatorLeafProto ∧ Cfg.repaired.nonceSet = true := by decide
 example : Cfg.pinned.rootFromPresent = false ∧ Cfg.pinned.shardingLeafProto = false ∧
